@@ -964,7 +964,192 @@ fn run_item(ctx: &mut Ctx, fonts: &[Fnt], fi: usize, k: usize) {
     }
 }
 
-pub fn run(ctx: &mut Ctx, _args: &Args) {
+// ------------------------------------------------------------------ Miri slice
+
+/// The slice run under Miri (extra stage "miri" of stages.json). skrifa carves typed
+/// slices (`Point<F26Dot6>`, `Point<i32>`, `i32`, `u16`, `PointFlags`) out of the caller's
+/// `&mut [u8]` (outline/glyf/memory.rs: integer align-up + `bytemuck::try_cast_slice_mut`).
+/// A handful of glyphs of tiny TrueType fonts is drawn unhinted (FreeType and HarfBuzz
+/// path styles, default and non-default location) and interpreter-hinted (programs with
+/// stack, cvt, storage and twilight use) with library memory, then with caller buffers at
+/// 8 start alignments and sizes advertised..=advertised+8 with different pre-fills; every
+/// observation must equal the library-memory one. What Miri adds to the value oracle:
+/// misaligned or out-of-bounds typed accesses, reads of uninitialised bytes, aliasing
+/// violations between the carved slices.
+fn miri_slice(ctx: &mut Ctx, _args: &Args) {
+    ctx.assumptions.push(
+        "Miri slice: alignment is checked on the concrete addresses (8 start residues x 9 sizes per glyph and mode), not with -Zmiri-symbolic-alignment-check: \
+         the library aligns inside a byte buffer by integer arithmetic (its own temporary memory is a `[u8; N]` on the stack), which the symbolic check rejects by design"
+            .into(),
+    );
+    let dir = format!("{}/font-test-data/test_data/ttf", vf_core::repo_dir());
+    let mut datas: Vec<(String, Vec<u8>)> = synth::fonts();
+    for name in ["vazirmatn_var_trimmed.ttf", "glyf_components.ttf", "cvar.ttf"] {
+        match std::fs::read(format!("{}/{}", dir, name)) {
+            Ok(d) => datas.push((name.to_string(), d)),
+            Err(e) => ctx.inconclusive(format!("cannot read {}: {}", name, e)),
+        }
+    }
+    let fonts = load_fonts(&[], &datas);
+    ctx.extra.insert("miri_fonts".into(), json!(fonts.iter().map(|f| f.name.clone()).collect::<Vec<_>>()));
+    let thorough = ctx.tier.is_thorough();
+    // (font, glyph ids, configurations)
+    let hinted = |size: f32, target: usize, pedantic: bool| Config { size: Some(size), coords: vec![], mode: Mode::Hinted { engine: 0, target, pedantic } };
+    let unh = |size: Option<f32>, coords: Vec<i16>, hb: bool| Config { size, coords, mode: Mode::Unhinted { hb } };
+    let mut plan: Vec<(&str, Vec<u32>, Vec<Config>)> = vec![
+        ("synth-idef-a.ttf", if thorough { vec![1, 2, 3, 4] } else { vec![2, 4] }, vec![hinted(16.0, 1, false), unh(Some(12.0), vec![], false)]),
+        ("vazirmatn_var_trimmed.ttf", if thorough { vec![1, 2, 3] } else { vec![2] }, vec![unh(Some(16.0), vec![8192], false), unh(None, vec![-16384], true)]),
+        ("glyf_components.ttf", if thorough { vec![2, 4, 6, 8] } else { vec![3] }, vec![unh(Some(33.0), vec![], false)]),
+    ];
+    if thorough {
+        plan.push(("synth-idef-b.ttf", vec![1, 2, 3, 4], vec![hinted(12.0, 0, true), hinted(113.0, 9, false)]));
+        plan.push(("cvar.ttf", vec![0], vec![hinted(16.0, 1, false), unh(Some(8.0), vec![16384], false)]));
+        plan.push(("vazirmatn_var_trimmed.ttf", vec![1], vec![hinted(12.0, 1, false), unh(Some(113.0), vec![3000], true)]));
+    }
+    let mut rng = Rng::derive(ctx.seed, "c12-miri", 0);
+    for (name, gids, cfgs) in plan {
+        let Some(f) = fonts.iter().find(|f| f.name == name) else {
+            ctx.inconclusive(format!("font {} did not load", name));
+            continue;
+        };
+        for cfg in cfgs {
+            let t0 = ctx.elapsed_s();
+            let code = cfg.code();
+            let coords = ncoords(&cfg.coords);
+            let is_hinted = matches!(cfg.mode, Mode::Hinted { .. });
+            let pedantic = matches!(cfg.mode, Mode::Hinted { pedantic: true, .. });
+            let hb = matches!(cfg.mode, Mode::Unhinted { hb: true });
+            let hinting = if is_hinted { Hinting::Embedded } else { Hinting::None };
+            let inst = match guard(|| new_instance(f, &cfg, &coords)) {
+                Ok(None) => None,
+                Ok(Some(Ok(i))) => Some(i),
+                Ok(Some(Err(e))) => {
+                    ctx.count("instance_new_failed", 1);
+                    ctx.label("instance_errors", &e.chars().take(60).collect::<String>());
+                    continue;
+                }
+                Err(p) => {
+                    ctx.judge_panic(&p, "HintingInstance::new", json!({"font": f.name, "config": code}), None);
+                    continue;
+                }
+            };
+            if let Some(i) = &inst {
+                // the hook must be compiled in (cfg googlefonts_fontations_verif reaches the Miri build)
+                ctx.label("hinting_kinds_reached", &format!("{}:{}:state_hook={}", i.verif_kind(), if i.is_enabled() { "enabled" } else { "disabled" }, i.verif_state().is_some()));
+            } else {
+                ctx.label("hinting_kinds_reached", &format!("unhinted{}", if hb { "-harfbuzz" } else { "" }));
+            }
+            let sel = match &inst {
+                Some(i) => Sel::Hinted { inst: i, pedantic },
+                None => Sel::Unhinted { size: cfg.size(), coords: &coords, hb },
+            };
+            for gid in &gids {
+                let Some(g) = f.outlines.get(GlyphId::new(*gid)) else { continue };
+                let mut panics: Vec<PanicInfo> = vec![];
+                let base = draw_obs(&g, &sel, None, &mut panics);
+                ctx.eval();
+                ctx.count(if base.res.is_ok() { "baseline_ok" } else { "baseline_err" }, 1);
+                if let Err(e) = &base.res {
+                    ctx.label("draw_errors", &e.chars().take(48).collect::<String>());
+                }
+                if base.res.is_ok() {
+                    let (err, contours, ncmd) = grammar(&base.cmds, true);
+                    ctx.count("contours_checked", contours as u64);
+                    ctx.count("commands_checked", ncmd as u64);
+                    if let Some(e) = err {
+                        ctx.violation(&format!("malformed-stream:{}:{}:gid={}:{}", e.split(':').next().unwrap_or(""), f.name, gid, code), json!({"problem": e}), None);
+                    }
+                }
+                let need = g.draw_memory_size(hinting);
+                ctx.count(if need > 0 { "glyphs_needing_memory" } else { "glyphs_needing_no_memory" }, 1);
+                // backing store with spare room; `u8` elements: the allocation promises no alignment
+                let mut big = vec![0x5Au8; need + 8 + 8 + 8];
+                let mut variants = 0u64;
+                for align in 0..8usize {
+                    for extra in 0..=8usize {
+                        // quick: both ends of the size range and one size depending on the alignment
+                        if !thorough && !(extra == 0 || extra == 8 || extra == 1 + align % 7) {
+                            continue;
+                        }
+                        let fill = (align + extra) % 4;
+                        let basep = big.as_ptr() as usize;
+                        let off = (align + 8 - basep % 8) % 8;
+                        let slice = &mut big[off..off + need + extra];
+                        match fill {
+                            0 => slice.fill(0),
+                            1 => slice.fill(0xAA),
+                            2 => {
+                                let r = rng.bytes(slice.len());
+                                slice.copy_from_slice(&r);
+                            }
+                            _ => {} // dirty from the previous draw
+                        }
+                        let o = draw_obs(&g, &sel, Some(slice), &mut panics);
+                        variants += 1;
+                        ctx.eval();
+                        ctx.count("cmp:b-caller-memory", 1);
+                        ctx.count(&format!("mem:align{}", align), 1);
+                        ctx.count(&format!("mem:extra{}", extra), 1);
+                        if o != base {
+                            let kind = glyph_kind(f, *gid);
+                            let mode_code = code.rsplit(';').next().unwrap_or("");
+                            let loc = if cfg.coords.iter().all(|c| *c == 0) { "default-location" } else { "non-default-location" };
+                            let mut d = describe_diff(&base, &o);
+                            d["variant_info"] = json!({"advertised": need, "extra": extra, "start_alignment_mod8": align, "prefill": (["zero", "0xAA", "random", "dirty"][fill])});
+                            d["item"] = json!({"font": f.name, "config": code, "gid": gid});
+                            ctx.violation(&format!("diff:b-caller-memory:{}:{}-glyph:{}:{}", f.name, kind, mode_code, loc), d, None);
+                        }
+                    }
+                }
+                // a buffer one byte short of what is advertised must be refused, not overrun
+                if need > 0 {
+                    let basep = big.as_ptr() as usize;
+                    let off = (8 - basep % 8) % 8;
+                    // worst case for the carver: aligned start, so no slack is consumed by alignment
+                    let short = need.saturating_sub(1 + std::mem::align_of::<i32>());
+                    let o = draw_obs(&g, &sel, Some(&mut big[off..off + short]), &mut panics);
+                    ctx.eval();
+                    ctx.count("mem:short_buffer_draws", 1);
+                    match &o.res {
+                        Err(e) if e.contains("InsufficientMemory") => ctx.count("mem:short_buffer_refused", 1),
+                        Err(e) => ctx.label("short_buffer_other_results", &e.chars().take(48).collect::<String>()),
+                        Ok(_) => {
+                            if o != base {
+                                ctx.violation(&format!("diff:b-short-caller-memory:{}:gid={}:{}", f.name, gid, code), describe_diff(&base, &o), None);
+                            }
+                        }
+                    }
+                }
+                // a second library-memory draw after all the caller-memory ones
+                let again = draw_obs(&g, &sel, None, &mut panics);
+                ctx.eval();
+                ctx.count("cmp:a-repeat", 1);
+                if again != base {
+                    ctx.violation(&format!("diff:a-repeat:{}:gid={}:{}", f.name, gid, code), describe_diff(&base, &again), None);
+                }
+                if base.res.is_ok() && !base.cmds.is_empty() {
+                    let mut d = Digest::new();
+                    d.u64(f.hash);
+                    d.u32(*gid);
+                    d.str(&code);
+                    ctx.nontrivial(d.finish());
+                    ctx.sample_by_kind(
+                        &format!("miri:{}:{}", f.name, if is_hinted { "hinted" } else { "unhinted" }),
+                        json!({"font": f.name, "gid": gid, "config": code, "stream_words": base.cmds.len(), "advertised_memory": need, "caller_memory_variants_compared": variants}),
+                    );
+                }
+                for p in panics {
+                    ctx.judge_panic(&p, "OutlineGlyph::draw", json!({"case": format!("{}:gid={}:{}", f.name, gid, code)}), None);
+                }
+            }
+            ctx.label("fonts", &f.name);
+            let dt = ctx.elapsed_s() - t0;
+            ctx.count(&format!("wall_ms:miri:{}:{}", f.name, if is_hinted { "hinted" } else { "unhinted" }), (dt * 1000.0) as u64);
+        }
+    }
+}
+
+pub fn run(ctx: &mut Ctx, args: &Args) {
     ctx.policy = PanicPolicy::Totality;
     ctx.rule = "a (font, glyph, size, location, hinting options) whose baseline draw (fresh instance, serial, library memory) succeeded with a non-empty \
                 command stream and was compared against the variants a..f of its work item; digest = (font hash, glyph id, configuration)"
@@ -976,6 +1161,9 @@ pub fn run(ctx: &mut Ctx, _args: &Args) {
         "normalized coordinates are passed directly (F2Dot14 in [-1,1]); avar is not involved".into(),
         "stream grammar is only demanded of TrueType (glyf) outlines; finiteness of all formats".into(),
     ];
+    if cfg!(miri) || args.profile == "miri" {
+        return miri_slice(ctx, args);
+    }
     let corpus = vf_core::corpus_fonts();
     let synth = synth::fonts();
     let fonts = load_fonts(&corpus, &synth);
